@@ -127,6 +127,8 @@ def run(ctx):
                     floor=5)
     # ---------------------------------------------------------------- R3
     r3(ctx, prog)
+    # ---------------------------------------------------------------- R6
+    r6(ctx, prog)
     # ---------------------------------------------------------------- R4
     n = rules_num.lmfit_int_uses(ctx, "C01-R4", reach)
     ctx.note("C01-R4: %d int-only uses of coerced lmfit values" % n)
@@ -211,3 +213,57 @@ def r3(ctx, prog):
                       emp_default.value is False,
                       "Dfun must be the wrapper around the analytic "
                       "Jacobian", node=c)
+
+
+def r6(ctx, prog):
+    ctx.rule("C01-R6", "initial-model bounds: sx and sy receive identical "
+             "bound expressions (the optimiser may swap the axes; fix_shape "
+             "swaps them back), the upper bound contains the island's "
+             "longest side, and xo/yo are bounded symmetrically about the "
+             "peak")
+    n = 0
+    for short in ("source_finder.SourceFinder.estimate_lmfit_parinfo",
+                  "source_finder.estimate_parinfo_image"):
+        if not prog.has_func(short):
+            continue
+        fi = prog.func(short)
+        b = {}
+        for s in walk_no_nested(fi.node):
+            if isinstance(s, ast.Assign) and \
+                    isinstance(s.targets[0], ast.Tuple) and \
+                    isinstance(s.value, ast.Tuple) and \
+                    len(s.targets[0].elts) == 2:
+                names = [norm(e) for e in s.targets[0].elts]
+                if names in (["sx_min", "sx_max"], ["sy_min", "sy_max"]):
+                    b[names[0][:2]] = (s, [norm(e).replace(" ", "")
+                                           for e in s.value.elts])
+        if set(b) != {"sx", "sy"}:
+            raise AnalysisError("C01-R6: sx/sy bound tuples not found in %s"
+                                % short)
+        n += 1
+        ctx.check("C01-R6", fi, "sx bounds %s == sy bounds %s" %
+                  (b["sx"][1], b["sy"][1]), b["sx"][1] == b["sy"][1],
+                  "the bounds of sx and sy differ: the fit starts from the "
+                  "beam orientation and grows whichever axis lies along the "
+                  "source, so a source elongated along the other axis is "
+                  "clamped by the tighter bound and its size and flux are "
+                  "biased", node=b["sy"][0])
+        up = b["sy"][1][1]
+        ctx.check("C01-R6", fi, "upper size bound " + up,
+                  "max(xsize,ysize)+1" in up and "FWHM2CC" in up,
+                  "the upper bound must contain the island's longest side "
+                  "(max(xsize, ysize)+1)*sqrt(2) converted to sigma",
+                  node=b["sy"][0])
+        for ax in ("xo", "yo"):
+            d = [s for s in walk_no_nested(fi.node) if isinstance(s, ast.Assign)
+                 and isinstance(s.targets[0], ast.Tuple) and
+                 [norm(e) for e in s.targets[0].elts] == [ax + "_min",
+                                                           ax + "_max"]]
+            ok = len(d) == 1 and [norm(e).replace(" ", "")
+                                  for e in d[0].value.elts] == \
+                ["%s-%s_lim" % (ax, ax), "%s+%s_lim" % (ax, ax)]
+            n += 1
+            ctx.check("C01-R6", fi, "%s bounded symmetrically" % ax, ok,
+                      "%s must be bounded by +-%s_lim about the peak" %
+                      (ax, ax), node=d[0] if d else fi.node)
+    ctx.floor("C01-R6", n, 3, "bound definitions in the model builders")
